@@ -342,7 +342,13 @@ func (x *Exec) specIdent(env *SpecEnv, e *EIdent) Value {
 		}
 	} else {
 		// Go scope at the anchor
-		if obj := x.lookupGo(name, env.pos); obj != nil {
+		obj := x.lookupGo(name, env.pos)
+		if obj == nil {
+			if nn := x.eng.aliasNew(x.key, name); nn != "" {
+				obj = x.lookupGo(nn, env.pos)
+			}
+		}
+		if obj != nil {
 			switch o := obj.(type) {
 			case *types.Var:
 				if e.Pre || env.inPre {
